@@ -7,7 +7,11 @@ CFG = {
     "rule": ("generated UFO trees (2-700 glyphs, 1-4 layers sharing glyph names, names built to collide: case variants, one trailing character "
              "more or less; 0-8 components per glyph drawn mostly from 2-6 hot base names so the same names are interned from many files at once; "
              "name attributes that differ from the contents key; some trees with unparsable / missing glyph files; some with a crafted contents.plist "
-             "mapping two glyphs to one file) loaded, dumped and saved by the sequential build of the harness and by the rayon build "
+             "mapping two glyphs to one file; every 5th tree carries the two legal names g711c6db79da05b78 / gdde3a1201b0b8338 whose DefaultHasher::new() "
+             "values are equal, as glyph names and component bases within one layer and split across layers; every 6th tree has 5-8 layers of very different "
+             "sizes with the default layer not first in layercontents.plist; half of the trees get a history of 1-30 public-API operations between load and save "
+             "(insert_glyph, remove_glyph, rename_glyph, entry().or_insert, on existing / early-sorting / previously used names) applied by both builds, the dump "
+             "after the history is compared as well) loaded, dumped and saved by the sequential build of the harness and by the rayon build "
              "(second cargo configuration of the same harness, norad/rayon) with RAYON_NUM_THREADS in {1,2,4,16}, each 20x (quick) / 500x (thorough): "
              "every dump (all layer names, glyph names, component bases, body check), saved-file listing and saved-tree hash must equal the sequential one; "
              "the sequential dump and listing are compared with the compiled model, and the executable parallel model is replayed on the same files under "
@@ -26,6 +30,9 @@ CFG = {
         "the driver additionally checks the dump order against the sorted contents keys)",
         "glif parsing other than the order of interning requests (key, name attribute, component bases) is outside this model (C02/C12); "
         "the harness checks the rest of every loaded glyph against the seed it was generated from",
+        "a name table that compares hashes instead of names is exercised for ONE hash function only (DefaultHasher::new(), the colliding pair in the name pool)",
+        "file names chosen by insert_glyph during a history are not predicted by this model (C07); the driver only demands one file per contents entry holding the right glyph; "
+        "the par = seq oracle compares listings and tree hashes exactly",
         "which error a failing parallel load reports is schedule-dependent and outside the statement (only fail-iff-fail is compared)",
         "torn / overlapping writes to ONE file from two threads are not modelled (the model's write is atomic); they only arise under the recorded finding",
     ],
